@@ -218,7 +218,7 @@ def meta(tier):
         'bounds': 'order 1..3 (thorough 5), mode sizes in {1,2,3,4} incl. singleton modes; per mode every kind from {symbolic int (negative allowed), full slice, '
                   'partial/negative-bound slices, length-1 slices, step-2 slices}; None at every position; leading/trailing Ellipsis with 0..d explicit items; '
                   'bare int/slice/Ellipsis; operators: int pairs and slice pairs; apply_mask with a symbolic M x d index matrix, M <= 3; integer index values '
-                  'are solver variables, slice bounds enumerated',
+                  'are solver variables, slice bounds enumerated; rank profiles random per shape plus fixed falling / rising profiles with every int/slice mask',
         'outside': 'IEEE rounding; sizes > 4; values under symbolic slice bounds (only the shape is decided for those, at the shape level: mode sizes in [1,3] (thorough 4), int indices and slice start/stop in [-B-1, B+1], steps in [1,3] as z3 integers); negative steps (torch rejects them)',
         'assumptions': ['symtorch models torch indexing (validated per run against real torch on seeded inputs)',
                         'z3 sat/unsat verdicts; unknown/time-out counted inconclusive'],
